@@ -323,10 +323,12 @@ def c02(ctx):
     seq_open = [k for k in all_open_kf_ids() if k["property"] in ("C03", "C04", "C05", "C06", "C08", "C09")]
     opn, _ = vlib.known_findings(ctx.prop)
     # the checker checked: every history of the atomic model is accepted; the split model is rejected
-    cfg = ctx.write_cfg("LinMC_run.cfg", open(os.path.join(ctx.scratch, "spec", "LinMC.cfg")).read().replace(
-        "Calls = 2", "Calls = %d" % (2 if ctx.tier == "quick" else 2)).replace(
-        "Threads = {1, 2}", "Threads = {1, 2}" if ctx.tier == "quick" else "Threads = {1, 2, 3}"))
-    ctx.model_check("LinMC", cfg, workers=8, xmx="10g", timeout=3000)
+    # (measured: 2 threads x 2 calls 40 s; 3 threads x 1 call 5 s; 3 x 2 and 2 x 3 do not finish in 50 min)
+    ctx.model_check("LinMC", "LinMC.cfg", workers=8, xmx="10g", timeout=3000)
+    if ctx.tier == "thorough":
+        cfg = ctx.write_cfg("LinMC_run.cfg", open(os.path.join(ctx.scratch, "spec", "LinMC.cfg")).read().replace(
+            "Calls = 2", "Calls = 1").replace("Threads = {1, 2}", "Threads = {1, 2, 3}"))
+        ctx.model_check("LinMC", cfg, workers=8, xmx="10g", timeout=3000)
     ctx.model_check("LinMC", "LinMC_split.cfg", expect_violation="Accepted")
     out = os.path.join(ctx.scratch, "t", "conc")
     summ = ctx.drive_procs("conc", ["-out", out, "-var", "all"], 12)
